@@ -94,6 +94,7 @@ def main(tier):
     rng = np.random.default_rng(SEED)
     nojit_pairs = []
     jit_results = {}
+    held = []      # results a caller keeps while making further calls: they must stay what they were
     for ci, c in enumerate(usable):
         pars = grid if not quick else [grid[0], grid[1 + (ci % (len(grid) - 1))]]
         if c.get("limit"):
@@ -106,6 +107,8 @@ def main(tier):
                 chk.violation(dict(clause="raised", fabric=c["fab"], regime=c["regime"], exc=type(e).__name__), f"derivatives raised {e!r} on a resolvable case", dict(case=c, par=par))
                 continue
             chk.count((kernel.case_key(c), tuple(sorted(par.items()))))
+            if (ci + pi) % 5 == 0:
+                held.append((c, par, got, (np.array(got[0], dtype=float, copy=True), np.array(got[1], dtype=float, copy=True))))
             compare(chk, c, par, got, "jit")
             if pi == 0 and ci % 3 == 0 and not c.get("limit"):
                 A0 = kernel.case_inputs(c, None)[0]
@@ -136,6 +139,11 @@ def main(tier):
         if dev > 1e-9 * max(1.0, float(np.abs(jo).max()), float(np.abs(jf).max())):
             chk.violation(dict(clause="jit-vs-interpreted", fabric=c["fab"], regime=c["regime"]), f"compiled and interpreted solvers differ by {dev:.3g}", dict(case=c, par=par))
     chk.cov["interpreted_cases"] = len(nojit_pairs)
+    stale = [(c, par) for c, par, got, cp in held if not (np.array_equal(np.asarray(got[0], dtype=float), cp[0]) and np.array_equal(np.asarray(got[1], dtype=float), cp[1]))]
+    chk.cov["results_held_across_later_calls"] = len(held)
+    if stale:
+        chk.violation(dict(clause="result-changed-by-a-later-call"), f"{len(stale)} of {len(held)} rate arrays returned by derivatives changed while later calls were made (the result aliases state the solver re-uses)",
+                      dict(case=stale[0][0], par=stale[0][1]))
     size_sweep(chk, cases, 16384 if quick else 32768, grid)
     # negative control: a perturbed expectation (role swap in the program) must be flagged
     probe = Check("C02", tier, dry=True)
